@@ -42,6 +42,7 @@ func init() {
 			{ID: "R09t", Floor: 1, Doc: "the CLI allocates no slice sized by a length prefix it decoded itself (its own section walks have no size limit because they stream)", Run: ruleR09t},
 			{ID: "R09u", Floor: 8, Doc: "sections are decoded by the framing routines of the pinned shapes, whose CID decoder bounds what it allocates (= R01b)", Run: ruleR01b},
 			{ID: "R09w", Floor: 1, Doc: "Inspect holds a section's length against MaxAllowedSectionSize before it parses the section's CID: no cid.CidFromReader on a path that has not passed the limit", Run: ruleR09w},
+			{ID: "R09x", Floor: 1, Doc: "a single-width bucket refuses an announced length that does not fit int64 — the length itself, not the record count derived from it (io.CopyN with a negative count copies nothing and succeeds)", Run: ruleR09x},
 			{ID: "R09f", Floor: 1, Doc: "singleWidthIndex.Unmarshal: bucket bytes come from an exact-length read of dataLen with its error tested", Run: ruleR09f},
 			{ID: "R09m", Floor: 2, Doc: "the CARv2 payload is read through a reader bounded by the header-declared size that can never run negative or past the source (= R14a)", Run: ruleR14a},
 			{ID: "R09n", Floor: 1, Doc: "a reader that has released its pooled buffer does not touch it again: the field is cleared with the release (polling a drained reader once more must answer io.EOF, not panic in bufio) (= R01m)", Run: ruleR01m},
